@@ -384,6 +384,7 @@ func (env *Env) run(c *Case) *Result {
 	var rdI io.Reader = rd
 	var wrI io.Writer = wr
 	var rdCloser *faultReaderCloser
+	var pty *ptyWriter
 	switch c.Faults.IOKind {
 	case 1:
 		rdI, wrI = faultReaderWT{rd}, recStringWriter{wr}
@@ -422,6 +423,16 @@ func (env *Env) run(c *Case) *Result {
 				rdI = wf
 			}
 			os.Remove(name)
+		}
+	case 10:
+		// the WRITER is a terminal: the slave side of a pseudo terminal (an *os.File that is a character device); what
+		// arrives on the master side is the output
+		if pw, err := openPty(); err == nil {
+			pty = pw
+			wrI = pw.slave
+		} else {
+			res.Infra = "pty: " + err.Error()
+			return res
 		}
 	case 7:
 		// the document in a *bytes.Buffer (a reader that has ReadString / ReadBytes / WriteTo methods of its own)
@@ -609,6 +620,10 @@ func (env *Env) run(c *Case) *Result {
 			defer syscall.Umask(old)
 		}
 	}
+	if c.Opts.Color {
+		color.NoColor = false
+		defer func() { color.NoColor = true }()
+	}
 	before := goroutineIDs()
 	start := time.Now()
 	err := func() (err error) {
@@ -623,6 +638,10 @@ func (env *Env) run(c *Case) *Result {
 	rd.mu.Lock()
 	rd.returned = true
 	rd.mu.Unlock()
+	var ptyOut []byte
+	if pty != nil {
+		ptyOut = pty.finish()
+	}
 	if rd.release != nil {
 		close(rd.release) // the idle input ends now (EOF or the rest of the document): a parked Read returns
 		res.ReaderParked = rd.blocked.Load()
@@ -651,6 +670,9 @@ func (env *Env) run(c *Case) *Result {
 	}
 	wr.mu.Lock()
 	res.Out = append([]byte{}, wr.buf...)
+	if pty != nil {
+		res.Out = ptyOut
+	}
 	res.Writes = wr.writes
 	res.Offered = wr.offered
 	res.WriteFailed = wr.failed
